@@ -76,6 +76,7 @@ class Ctx:
         self.steps = 0
         self.sample = None
         self._n = 0
+        self.deadline = None  # wall-clock time after which long enumerations inside one run should stop
 
     def subdir(self, name=None):
         self._n += 1
@@ -105,12 +106,13 @@ class Ctx:
         w.sim_us_total = 0
 
 
-def execute_scenario(mod, scenario, tier="quick", keep=False):
+def execute_scenario(mod, scenario, tier="quick", keep=False, deadline=None):
     from . import core
 
     sandbox = os.path.join(core.SANDBOX_PARENT, f"mhlsim-{os.getpid()}", f"r{time.monotonic_ns()}")
     os.makedirs(sandbox)
     ctx = Ctx(sandbox, tier)
+    ctx.deadline = deadline
     try:
         mod.execute(scenario, ctx)
     finally:
@@ -208,7 +210,7 @@ def worker_main(pid, tier, verif_seed, widx, nworkers, count, budget_s, outfile)
             rng = random.Random(seed)
             try:
                 scenario = mod.generate(rng, tier)
-                ctx = execute_scenario(mod, scenario, tier)
+                ctx = execute_scenario(mod, scenario, tier, deadline=t0 + budget_s + 30)
             except Exception:
                 out.write(json.dumps({"harness_error": traceback.format_exc(), "index": index, "seed": seed}) + "\n")
                 out.flush()
